@@ -449,6 +449,16 @@ class Inliner(object):
                                     hx = _Helper(d_, 'module', sm.name + '.' + d_.name, sm.tree, self._ok_def(d_) == 'gen')
                                     hx.home = sm
                                     xhelpers[a_.asname or a_.name] = hx
+        # classes imported from sibling modules: their non-anchor class / static methods can be looked through
+        xclasses = {}
+        for s in m.tree.body:
+            if isinstance(s, ast.ImportFrom) and s.module and (s.level >= 1 or s.module.startswith('lomond')):
+                sm = sibling(s.module, s.level)
+                if sm is not None and sm is not m:
+                    for a_ in s.names:
+                        for d_ in sm.tree.body:
+                            if isinstance(d_, ast.ClassDef) and d_.name == a_.name:
+                                xclasses[a_.asname or a_.name] = (sm, d_)
         self._modalias = modalias
 
         def do_func(fn, qual, clsnode, clshelpers, recv, enclosing_nested, recv_kind='method'):
@@ -459,7 +469,7 @@ class Inliner(object):
                 if isinstance(n, ast.FunctionDef) and (qual + '.' + n.name) not in KNOWN and self._ok_def(n):
                     nested[n.name] = _Helper(n, 'nested', qual + '.' + n.name, fn, self._ok_def(n) == 'gen')
             ctx = dict(fn=fn, qual=qual, recv=recv, clshelpers=clshelpers, nested=nested, modhelpers=modhelpers, module=m,
-                       xhelpers=xhelpers, modalias=modalias,
+                       xhelpers=xhelpers, modalias=modalias, xclasses=xclasses,
                        clsname=(clsnode.name if clsnode is not None else None), recv_kind=recv_kind)
             nb = self._stmts(fn.body, ctx)
             if nb is not None:
@@ -559,6 +569,25 @@ class Inliner(object):
                 h = ctx.get('xhelpers', {}).get(f.id)
                 if h is not None:
                     return h
+        if isinstance(f, ast.Attribute) and isinstance(f.value, ast.Name) and f.value.id in ctx.get('xclasses', {}) \
+                and f.value.id not in self._local_names(ctx['fn']):
+            sm, cd = ctx['xclasses'][f.value.id]
+            key = (sm.name, cd.name, f.attr)
+            cache = self.__dict__.setdefault('_xcache', {})
+            if key not in cache:
+                cache[key] = None
+                for d_ in cd.body:
+                    if isinstance(d_, ast.FunctionDef) and d_.name == f.attr and ('%s.%s.%s' % (sm.name, cd.name, d_.name)) not in KNOWN \
+                            and self._ok_def(d_) == 'plain':
+                        decos = [ast.unparse(x) for x in d_.decorator_list]
+                        kind = 'classmethod' if 'classmethod' in decos else 'staticmethod' if 'staticmethod' in decos else None
+                        if kind:
+                            hx = _Helper(d_, kind, '%s.%s.%s' % (sm.name, cd.name, d_.name), cd, False)
+                            hx.home = sm
+                            hx.xclass = True
+                            cache[key] = hx
+            if cache[key] is not None:
+                return cache[key]
         if isinstance(f, ast.Attribute) and isinstance(f.value, ast.Name) and f.value.id in ctx.get('modalias', {}) \
                 and f.value.id not in self._local_names(ctx['fn']):
             sm = ctx['modalias'][f.value.id]
@@ -785,7 +814,7 @@ class Inliner(object):
             if h.kind == 'method':
                 subst[first] = recv
             elif isinstance(recv, ast.Name) and ((recv.id == ctx.get('recv') and ctx.get('recv_kind') == 'classmethod')
-                                                 or recv.id == ctx.get('clsname')):
+                                                 or recv.id == ctx.get('clsname') or getattr(h, 'xclass', False)):
                 subst[first] = recv          # already a class object
             else:
                 subst[first] = ast.Attribute(value=copy.deepcopy(recv), attr='__class__', ctx=ast.Load())
